@@ -144,3 +144,35 @@ Fixpoint lin_search (fuel : nat) (c : cfgv) (todo : list (list cop)) (obs : list
              | CConf x :: r => lin_search fuel' (x, snd c) (set_nth i r todo) obs final
              end) (List.seq 0 (List.length todo))
   end.
+
+(* ---------------------------------------------------------------- read-modify-write atomicity.
+   The translator marks every write of a guarded variable whose value derives from a read of the
+   same variable (directly, through a local snapshot, or through an accessor function that returns /
+   assigns it under its own lock): [Nop "rmw-atomic v"] when read and write lie in ONE
+   acquire..release region, [Nop "rmw-split v"] when the lock is dropped in between -- each half is
+   then well locked and race free, but another thread's update made in between is overwritten.
+   Functions listed in gen_rmw_exempt (with the reason) are blanked before inlining. *)
+Definition blank (exempt : list string) (funcs : list (string * list gev)) : list (string * list gev) :=
+  map (fun fb => if mem (fst fb) exempt then (fst fb, []) else fb) funcs.
+
+Fixpoint rmw_single_section (t : list ev) : bool :=
+  match t with
+  | [] => true
+  | Nop tag :: r => negb (has_prefix "rmw-split " tag) && rmw_single_section r
+  | _ :: r => rmw_single_section r
+  end.
+
+Definition rmw_ok (funcs : list (string * list gev)) (exempt : list string) (roots : list string) : bool :=
+  forallb (fun r => mem r exempt || rmw_single_section (thread_of (blank exempt funcs) r)) roots.
+
+Fixpoint has_nop (tag : string) (t : list ev) : bool :=
+  match t with
+  | [] => false
+  | Nop x :: r => String.eqb x tag || has_nop tag r
+  | _ :: r => has_nop tag r
+  end.
+(* non-vacuity: the read-modify-writes the design relies on are seen, and seen as atomic *)
+Definition required_rmw : list string :=
+  ["rmw-atomic currentCfg"; "rmw-atomic tempFiles"; "rmw-atomic Binutils.rep"].
+Definition rmw_seen (funcs : list (string * list gev)) (roots : list string) : bool :=
+  forallb (fun tag => existsb (fun r => has_nop tag (thread_of funcs r)) roots) required_rmw.
